@@ -1204,13 +1204,11 @@ pub fn time_3(hour_value: &Value, minute_value: &Value, second_value: &Value) ->
         if (0..24).contains(hour) && (0..60).contains(minute) && (0..60).contains(second) && hour.trunc() == *hour && minute.trunc() == *minute {
           let seconds = second.trunc();
           let nanoseconds = (second.fract() * FeelNumber::nano()).trunc();
-          if let Some(feel_time) = FeelTime::new_hms_opt(
-            hour.to_u8().unwrap(),
-            minute.to_u8().unwrap(),
-            seconds.to_u8().unwrap(),
-            nanoseconds.to_u64().unwrap(),
-          ) {
-            return Value::Time(feel_time);
+          // the components are converted only when they are representable, seconds that are not a number are not
+          if let (Some(h), Some(m), Some(s), Some(n)) = (hour.to_u8(), minute.to_u8(), seconds.to_u8(), nanoseconds.to_u64()) {
+            if let Some(feel_time) = FeelTime::new_hms_opt(h, m, s, n) {
+              return Value::Time(feel_time);
+            }
           }
         }
       }
@@ -1227,29 +1225,21 @@ pub fn time_4(hour_value: &Value, minute_value: &Value, second_value: &Value, du
         if (0..24).contains(hour) && (0..60).contains(minute) && (0..60).contains(second) && hour.trunc() == *hour && minute.trunc() == *minute {
           let seconds = second.trunc();
           let nanoseconds = (second.fract() * FeelNumber::nano()).trunc();
-          match duration_value {
-            Value::DaysAndTimeDuration(duration) if (-53_999..=53_999).contains(&duration.as_seconds()) => {
-              if let Some(feel_time) = FeelTime::new_hmso_opt(
-                hour.to_u8().unwrap(),
-                minute.to_u8().unwrap(),
-                seconds.to_u8().unwrap(),
-                nanoseconds.to_u64().unwrap(),
-                duration.as_seconds() as i32,
-              ) {
-                return Value::Time(feel_time);
+          // the components are converted only when they are representable, seconds that are not a number are not
+          if let (Some(h), Some(m), Some(s), Some(n)) = (hour.to_u8(), minute.to_u8(), seconds.to_u8(), nanoseconds.to_u64()) {
+            match duration_value {
+              Value::DaysAndTimeDuration(duration) if (-53_999..=53_999).contains(&duration.as_seconds()) => {
+                if let Some(feel_time) = FeelTime::new_hmso_opt(h, m, s, n, duration.as_seconds() as i32) {
+                  return Value::Time(feel_time);
+                }
               }
-            }
-            Value::Null(_) => {
-              if let Some(feel_time) = FeelTime::new_hms_opt(
-                hour.to_u8().unwrap(),
-                minute.to_u8().unwrap(),
-                seconds.to_u8().unwrap(),
-                nanoseconds.to_u64().unwrap(),
-              ) {
-                return Value::Time(feel_time);
+              Value::Null(_) => {
+                if let Some(feel_time) = FeelTime::new_hms_opt(h, m, s, n) {
+                  return Value::Time(feel_time);
+                }
               }
+              _ => {}
             }
-            _ => {}
           }
         }
       }
